@@ -7,6 +7,7 @@ import (
 	"fmt"
 	"os"
 	"path/filepath"
+	"sort"
 	"strings"
 
 	"github.com/nspcc-dev/neo-go/pkg/core/dao"
@@ -44,6 +45,7 @@ type runner struct {
 	// class flags
 	sawNT, sawMerge, sawTomb, sawExt, sawBackStart, sawCut, sawCancel, sawCB, sawMidFlush bool
 	sawPP, sawDepth, sawGCBase, sawGCLayer, sawPriv, sawPersistPriv, sawWindow, sawSpan   bool
+	sawFailWin, sawFailPlain, rewStor, rewMem                                             bool
 	sawWindowQ, sawDao, sawEmptyVal                                                       bool
 	excluded                                                                              bool
 	queries, maxStack                                                                     int
@@ -116,10 +118,11 @@ func newRunner(c *Case, kind string, o *vt.Obs, gated, doTrace bool) (*runner, e
 		return nil, fmt.Errorf("infrastructure: cannot open %s backend: %w", kind, err)
 	}
 	r := &runner{c: c, o: o, kind: kind, dir: dir, raw: raw, base: raw, doTr: doTrace}
-	if gated {
-		r.gate = newGate(raw)
-		r.base = r.gate
-	}
+	// The gate is always in place (pass-through unless armed): the gated check uses it for the owned Persist
+	// window, every check for injected backend failures.
+	_ = gated
+	r.gate = newGate(raw)
+	r.base = r.gate
 	r.m.base = map[string][]byte{}
 	for i, p := range c.Stack {
 		r.push(p && i == len(c.Stack)-1)
@@ -778,6 +781,68 @@ func (r *runner) exec(op *Op) error {
 		return r.asyncCheck(r.layerAt(op.At), &o2, op.Kind == "dasync", nil)
 	case "window":
 		return r.window(op)
+	case "failflush":
+		// a flush of the (shared) bottom layer whose backend write fails: Persist/PersistSync reports the error,
+		// no answer changes, nothing reaches the backend
+		if r.inWindow || r.priv[0] {
+			return nil
+		}
+		pending := len(r.m.layers[0])
+		r.gate.failOnce = true
+		var err error
+		if op.Mode&1 == 1 {
+			_, err = r.st[0].PersistSync()
+		} else {
+			_, err = r.st[0].Persist()
+		}
+		r.gate.failOnce = false
+		if pending == 0 {
+			if err != nil {
+				return fmt.Errorf("Persist of an empty bottom layer failed: %v", err)
+			}
+			return nil
+		}
+		if !errors.Is(err, errInjected) {
+			return fmt.Errorf("Persist(mode %d) of the bottom layer returned %v although PutChangeSet of the backend failed", op.Mode&1, err)
+		}
+		r.sawFailPlain = true
+		return r.auditFrom(-1, "after a failed flush of the bottom layer")
+	case "rewrite":
+		// overwrite / delete, on the bottom layer, a key of the batch that is being flushed right now (inside a window);
+		// K even aims at the STStorage/STTempStorage map, odd at the other one
+		if !r.inWindow || len(r.winSnap) == 0 {
+			return nil
+		}
+		var a, b []string
+		for k := range r.winSnap {
+			if k[0] == byte(storage.STStorage) || k[0] == byte(storage.STTempStorage) {
+				a = append(a, k)
+			} else {
+				b = append(b, k)
+			}
+		}
+		if op.K%2 == 1 {
+			a, b = b, a
+		}
+		if len(a) == 0 {
+			a = b
+		}
+		sort.Strings(a)
+		k := a[(op.K/2)%len(a)]
+		if op.Del {
+			r.st[0].Delete([]byte(k))
+			r.mset(0, k, nil)
+		} else {
+			v := val(op.V)
+			r.st[0].Put([]byte(k), v)
+			r.mset(0, k, v)
+		}
+		if k[0] == byte(storage.STStorage) || k[0] == byte(storage.STTempStorage) {
+			r.rewStor = true
+		} else {
+			r.rewMem = true
+		}
+		return r.audit(r.top(), "after rewriting a key of the batch in flight")
 	}
 	return fmt.Errorf("unknown op kind %q", op.Kind)
 }
@@ -851,6 +916,10 @@ func (r *runner) labels() {
 	flag(r.sawWindow, "persist-window")
 	flag(r.sawWindowQ, "query-in-window")
 	flag(r.sawSpan, "iteration-spans-window-end")
+	flag(r.sawFailPlain, "failed-flush-plain")
+	flag(r.sawFailWin, "failed-flush-in-window")
+	flag(r.sawFailWin && (r.rewStor || r.rewMem), "failed-flush-with-overwrites-of-batch-keys")
+	flag(r.sawFailWin && r.rewStor && r.rewMem, "failed-flush-overwrites-in-both-maps")
 	flag(r.sawDao, "via-dao")
 	flag(r.sawEmptyVal, "empty-value")
 	if r.excluded {
